@@ -189,7 +189,7 @@ def build_lib(backend="asm", triple=DEFAULT_TRIPLE, cc="gcc", opt="-O2", san=Non
     between share triples (compiled against the default triple's config.h)."""
     cfg = cfg_dir()
     cxxc = {"gcc": "g++", "clang": "clang++"}[cc]
-    flags = [opt, "-g", "-DHAVE_CONFIG_H", "-fno-omit-frame-pointer"] + BACKENDS[backend] + list(extra)
+    flags = [opt, "-g", "-DHAVE_CONFIG_H", "-fno-omit-frame-pointer"] + (["-gdwarf-4"] if cc == "clang" else []) + BACKENDS[backend] + list(extra)
     if checker:
         flags += ["-DASCON_FORCE_GENERIC", "-DASCON_CHECK_ACQUIRE_RELEASE"]
     if no_stl:
@@ -283,6 +283,8 @@ def build_prog(name, sources, lib=None, cc=None, extra=(), link=(), objs=(), cxx
         o = os.path.join(objroot, okey + "-" + os.path.basename(s) + ".o")
         os_.append(o)
         pre = [cxxc, "-std=gnu++11"] if iscpp else [cc, "-std=gnu99"]
+        if cc == "clang":
+            pre = pre + ["-gdwarf-4"]      # valgrind 3.19 cannot read clang's default DWARF 5
         cmd = pre + [opt, "-g"] + sanflags + inc + list(extra) + sx + ["-c", s]
         jobs.append((cmd, o))
     h = hashlib.sha256()
